@@ -534,6 +534,33 @@ def corpus_format(ctx):
     ctx.ob("FMT", "corpus|reader|surface<TAB>feature", ok, fn_loc(crate, rp),
            "a corpus line is split at TAB into exactly (surface, feature)" if ok else
            "Corpus::from_reader splits on %r into %d parts" % (d, len(nx)))
+    # the split line is the raw line of the reader (only the line terminator removed)
+    if sp:
+        names_chain = []
+        pl = op_place(sp[0][2]["args"][0])
+        cur = pl["l"] if pl else None
+        for _ in range(16):
+            if cur is None:
+                break
+            dd_ = rfa.single_def(cur)
+            if dd_ is None:
+                break
+            if dd_[2] == "call":
+                c = callee_of(dd_[3])
+                names_chain.append(short(strip_generics((c.get("resolved") or c)["path"])) if c else "?")
+                p0 = op_place(dd_[3]["args"][0]) if dd_[3]["args"] else None
+            else:
+                rv = dd_[3]
+                p0 = op_place(rv["op"]) if rv["k"] in ("use", "cast") else rv["place"] if rv["k"] == "ref" else None
+            cur = p0["l"] if p0 else None
+        trims = [n for n in names_chain if n.startswith("trim")]
+        okraw = "lines" in names_chain and not trims
+        ctx.ob("FMT", "corpus|reader|raw-line", okraw, fn_loc(crate, rp),
+               "the line handed to split() is the reader's line with only the terminator removed "
+               "(BufRead::lines)" if okraw else
+               "the corpus line is post-processed (%s) before it is split: trailing white space of "
+               "a feature - or an empty feature - is lost, so writer output no longer parses to "
+               "the same tokens" % (trims or names_chain))
     # the Word aggregate: surface from the first part, feature from the second
     WORD = "vibrato::trainer::corpus::Word"
     okw = False
